@@ -24,11 +24,17 @@ type Leaf struct {
 	Cnt    map[string]int
 }
 
-func (l Leaf) Upper() string                { return strings.ToUpper(l.Name) }
-func (l *Leaf) PtrOnly() string             { return "ptr:" + l.Name }
-func (l Leaf) Add(a, b int) int             { return a + b + l.N }
-func (l Leaf) Sum(xs ...int) int            { s := 0; for _, x := range xs { s += x }; return s }
-func (l Leaf) Greet(s string) string        { return "hi " + s }
+func (l Leaf) Upper() string    { return strings.ToUpper(l.Name) }
+func (l *Leaf) PtrOnly() string { return "ptr:" + l.Name }
+func (l Leaf) Add(a, b int) int { return a + b + l.N }
+func (l Leaf) Sum(xs ...int) int {
+	s := 0
+	for _, x := range xs {
+		s += x
+	}
+	return s
+}
+func (l Leaf) Greet(s string) string { return "hi " + s }
 func (l Leaf) MayFail(fail bool) (string, error) {
 	if fail {
 		return "", errors.New("leaf failure")
@@ -39,9 +45,9 @@ func (l Leaf) ViaValue(v *pongo2.Value) string { return "v:" + v.String() }
 func (l Leaf) WithCtx(ctx *pongo2.ExecutionContext, s string) string {
 	return fmt.Sprintf("ctx(%v):%s", ctx != nil, s)
 }
-func (l Leaf) GetLeaf() Leaf        { return Leaf{Name: "made", N: 7} }
+func (l Leaf) GetLeaf() Leaf           { return Leaf{Name: "made", N: 7} }
 func (l Leaf) GetValue() *pongo2.Value { return pongo2.AsValue("wrapped") }
-func (l Leaf) AnyArg(x any) string { return fmt.Sprintf("any:%v", x) }
+func (l Leaf) AnyArg(x any) string     { return fmt.Sprintf("any:%v", x) }
 
 type Root struct {
 	In    Leaf
@@ -129,8 +135,8 @@ type Node struct {
 }
 
 type Func struct {
-	Params   []string // int str bool value any
-	Variadic bool     // last param repeats
+	Params   []string                         // int str bool value any
+	Variadic bool                             // last param repeats
 	Call     func(args []*Node) (*Node, bool) // result, failed
 }
 
@@ -490,9 +496,9 @@ func resolve(first string, steps []Step, ctx map[string]*Node) (*Node, string) {
 // ---------- the case ----------
 
 type Case struct {
-	First string `json:"first"`
-	Steps []Step `json:"steps"`
-	Sink  string `json:"sink"`           // print, length, if
+	First  string `json:"first"`
+	Steps  []Step `json:"steps"`
+	Sink   string `json:"sink"`             // print, length, if
 	SubVar string `json:"subvar,omitempty"` // for sub-var steps: which context variable holds the key
 }
 
@@ -793,7 +799,7 @@ func init() {
 	eng.Register(&eng.Check{
 		ID:    "C08",
 		Title: "Names resolve through maps, sequences, structs, pointers, methods, calls",
-		Rule: "bounded-exhaustive: every access path up to the step bound over a step alphabet of valid and invalid keys/fields/indices/methods from every context root of a fixed object graph (built twice: as Go values for the engine and as a model tree for the reference resolver), in dot and final-subscript form, every call form on every callable, observed through {{ p }}, {{ p|length }} and {% if p %}; compared with the step-wise reference resolver (value / empty / execution error - never a panic). Non-trivial: the reference defines an outcome; paths whose meaning the property leaves open or that the grammar does not accept are counted as skipped.",
+		Rule:  "bounded-exhaustive: every access path up to the step bound over a step alphabet of valid and invalid keys/fields/indices/methods from every context root of a fixed object graph (built twice: as Go values for the engine and as a model tree for the reference resolver), in dot and final-subscript form, every call form on every callable, observed through {{ p }}, {{ p|length }} and {% if p %}; compared with the step-wise reference resolver (value / empty / execution error - never a panic). Non-trivial: the reference defines an outcome; paths whose meaning the property leaves open or that the grammar does not accept are counted as skipped.",
 		Assumptions: []string{
 			"left open (skipped): integer dot-step on a map, indexing into a string, a map key equal to a method name, **T, nil passed for a typed or interface parameter, printed form of collections",
 			"a subscript is only generated as the last step of a name (the grammar accepts it nowhere else)",
